@@ -4,8 +4,9 @@
 Require Extraction.
 Require Import ExtrOcamlBasic.
 From Coq Require Import List NArith.
-From Skinny Require Import Bits SpecSkinny SpecMantis ModelCipher ModelCtr ModelCpu Api ModelArduino ArdApi.
+From Skinny Require Import Bits SpecSkinny SpecMantis ModelCipher ModelCtr ModelCpu Api ModelArduino ArdApi ModelTools.
 Extraction "model.ml" step init_world astep byte_of_N N_of_byte
   skinny128_enc skinny128_dec skinny64_enc skinny64_dec
   skinny128_tweaked_enc skinny128_tweaked_dec skinny64_tweaked_enc skinny64_tweaked_dec
-  mantis_enc mantis_dec.
+  mantis_enc mantis_dec
+  tool_ctr128 tool_ctr64 tool_ecb128 tool_ecb64 tool_tweak128 tool_tweak64.
